@@ -44,6 +44,13 @@ def main(argv):
         src = open(demo).read().replace(wt, "WORKTREE")
         open(os.path.join(out, "demo.py"), "w").write("# run with the worktree path substituted for WORKTREE (sys.path)\n" + src)
     meta = {"id": sid, "property": prop, "worktree_head": run(["git", "-C", wt, "rev-parse", "HEAD"]).stdout.strip()}
+    previous = os.path.join(out, "meta.json")
+    if os.path.exists(previous):  # a re-evaluation after strengthening: keep the notes and the first result
+        old = json.load(open(previous))
+        for k in ("needs_to_manifest", "history", "what_was_run"):
+            if k in old:
+                meta[k] = old[k]
+        meta["first_run"] = old.get("first_run") or {"detected_by": old.get("detected_by"), "checks": old.get("checks")}
     r = run(["/venv/bin/python", "-c", "import sys; sys.path.insert(0, %r); import svgelements" % wt])
     meta["imports"] = r.returncode == 0
     r = run([os.path.join(VERIF, "tools", "run_suite.sh"), wt])
